@@ -48,3 +48,36 @@ PROPS["C16"] = {
 
 # Properties not claimed, with the reason (kept current; see DESIGN.md).
 NOT_APPLICABLE = {}
+
+PROPS["C02"] = {
+    "level": "model_checking",
+    "harness": ["C02_"],
+    "tiers": {
+        "quick": {"timeout": "20s", "maxsteps": 8000000, "casecap": 1100, "bounds": "encoding lemmas: all 42 opcodes x full operand ranges (8/16/32 bit); VM decoders: 4 jump opcodes x all 2^32 targets, OpConstant/OpGetGlobal/OpSetGlobal/OpGetLocal x full index range; monitor: 44 catalog programs, int inputs a,b (full int64, or -1..3 where they bound a loop), bool c", "cross": 1},
+        "thorough": {"timeout": "60s", "maxsteps": 8000000, "casecap": 1100, "bounds": "as quick (the catalog and operand ranges are the bound)", "cross": 2},
+    },
+    "reach": {"C02_Encoding": ["enc"], "C02_DecodeJump": ["decjump"], "C02_DecodeIndex": ["decidx"], "C02_Monitor": ["monitor"]},
+    "assumptions": [
+        "the static well-formedness pass (jump targets, operand ranges, one operand-stack height per instruction, every path ends in a return) is an ordinary Go function run by the engine on each compiled program: it has no symbolic input; the solver decides the encoding lemmas, the VM decoders and the dynamic monitor over all inputs",
+        "stack effect of OpCall is taken as -(numArgs) also for spread calls (the VM replaces callee and arguments by one result)",
+    ],
+    "outside": "programs outside the catalog; functions of source modules (covered by C13's programs only for behaviour); cross-path comparison of stack heights is done statically, not between solver paths",
+    "stubs": COMMON_STUBS,
+}
+
+PROPS["C03"] = {
+    "level": "translation_validation",
+    "harness": ["C03_"],
+    "tiers": {
+        "quick": {"timeout": "20s", "maxsteps": 8000000, "bounds": "twin compile (with / without dead-code elimination) of 12 dead-code programs + 44 catalog + 9 failing programs, inputs a,b int64 (or -1..3 where they bound loops), c bool: identical globals, identical error text incl. positions; optimizer lemma on arbitrary streams of 2..3 instructions from {TRUE,POP,RET 0/1,JMP,JMPF,ANDJMP,ORJMP,GETL} with jump targets case-split over every instruction boundary and the end", "cross": 1},
+        "thorough": {"timeout": "60s", "maxsteps": 8000000, "bounds": "as quick; optimizer lemma on streams of 2..5 instructions", "cross": 2},
+    },
+    "reach": {"C03_TwinDead": ["twin"], "C03_TwinCatalog": ["twincat"], "C03_Lemma": ["lemma"]},
+    "assumptions": [
+        "the unoptimized twin is produced by an overlay of compiler.go generated from the current file (optimizeFunc renamed, a switch added that only appends the trailing return); if the anchor is missing the check reports itself broken",
+        "in the lemma, jump targets are finite-domain choices, not wide variables: it is an exhaustive case split within the stream-length bound",
+    ],
+    "outside": "streams longer than the bound; programs outside the catalog",
+    "stubs": COMMON_STUBS,
+    "level_text": "translation validation: each program is compiled twice by the real compiler (with and without dead-code elimination) and both are executed symbolically on the same inputs; the optimizer itself is run on arbitrary small streams and its output is checked against a reachability reference",
+}
